@@ -294,6 +294,41 @@ func replayFile(path string) (*Trial, *Failure, *Inconclusive, *Ctx) {
 	return &t, f, inc, ctx
 }
 
+// scheduleSummary renders a run's decision list relative to the baseline policy (all zeros).
+func scheduleSummary(t *Trial) string {
+	var sb strings.Builder
+	for i, rc := range t.Runs {
+		nz := 0
+		var parts []string
+		for k, v := range rc.Replay {
+			if v != 0 {
+				nz++
+				if len(parts) < 12 {
+					ar := ""
+					if k < len(rc.Arity) {
+						ar = fmt.Sprintf("/%d", rc.Arity[k])
+					}
+					parts = append(parts, fmt.Sprintf("#%d=%d%s", k, v, ar))
+				}
+			}
+		}
+		fmt.Fprintf(&sb, "  run %d: threads=%d NumCPU=%d map-order-mode=%d read-chunk-mode=%d, %d decisions", i, rc.Threads, rc.NumCPU, rc.MapMode, rc.Chunk, len(rc.Replay))
+		if nz == 0 {
+			sb.WriteString(", all baseline (fails under the run-to-block schedule)")
+		} else {
+			fmt.Fprintf(&sb, ", %d differ from the baseline policy: %s", nz, strings.Join(parts, " "))
+			if nz > len(parts) {
+				sb.WriteString(" ...")
+			}
+		}
+		for _, f := range rc.Faults {
+			fmt.Fprintf(&sb, "; fault %s on %q at %d", f.Kind, f.Dest, f.K)
+		}
+		sb.WriteString("\n")
+	}
+	return sb.String()
+}
+
 func replayCmd(args []string) {
 	fs := flag.NewFlagSet("replay", flag.ExitOnError)
 	verbose := fs.Bool("v", false, "")
@@ -318,6 +353,7 @@ func replayCmd(args []string) {
 	if *verbose || true {
 		fmt.Println(f.Detail)
 	}
+	fmt.Printf("seed: VERIF_SEED=%d ordinal=%d sub-seed=%d\nminimised schedule and faults:\n%s", t.Seed, t.Ordinal, t.SubSeed, scheduleSummary(t))
 	fmt.Printf("VIOLATION property=%s replay=%s\n", t.Prop, path)
 	os.Exit(1)
 }
@@ -520,6 +556,11 @@ func master(args []string) {
 		}
 		if code == 1 && strings.Contains(string(out), "CLASS "+cl+"\n") {
 			fmt.Printf("violation class %s (%d occurrences in this batch, minimised in %d re-executions)\n%s\n", cl, v.Count, v.MinTries, v.Detail)
+			if k := strings.Index(string(out), "seed: VERIF_SEED="); k >= 0 {
+				if e := strings.Index(string(out)[k:], "VIOLATION property="); e > 0 {
+					fmt.Print(string(out)[k : k+e])
+				}
+			}
 			fmt.Printf("VIOLATION property=%s replay=%s\n", p.ID, dst)
 			nViol++
 			exitCode = 1
